@@ -47,6 +47,9 @@ class Pool:
             lines.append('el.add.ee %s %s' % (E(b[i]), E(b[(i * 7 + 3) % len(b)])))
             lines.append('el.double %s' % E(b[i]))
             lines.append('el.smul.Ef %s %x' % (E(b[i]), [R - 1, 2, (R + 1) // 2, 5, gen.rand_field(rng, R)][i % 5]))
+            if i % 3 == 0: lines.append('el.neg %s' % E(b[i]))          # unary minus and a subtraction: their results are operands too
+            if i % 3 == 1: lines.append('el.sub.ee %s %s' % (E(b[i]), E(b[(i * 5 + 2) % len(b)])))
+            if i % 3 == 2 and build == 'ark': lines.append('el.negate %s' % E(b[i]))
         if build == 'ark' and len(b) >= 3:
             # multi-scalar results with ALIGNED scalars (all multiples of 16 / of 2^64: windowed and limb-wise algorithms end without a final
             # addition) and ordinary ones
